@@ -29,6 +29,11 @@ func canonType(actual string) string {
 }
 var funcAlias = map[*ssa.Function]string{}
 
+// fullAlias: an unexported helper that changed its form - a method rewritten as a plain function taking the former
+// receiver as first argument, or a plain function rewritten as a method of an unexported carrier type - keeps its
+// canonical name ("Type.method" resp. "function"); parameter and argument positions are the same in both forms.
+var fullAlias = map[*ssa.Function]string{}
+
 // canonicalField maps an actual field name of type tn to its canonical name.
 func canonicalField(tn, actual string) string {
 	if c, ok := fieldAlias[tn+"."+actual]; ok {
@@ -209,6 +214,7 @@ func isMutexT(t types.Type) bool { return isNamed(t, "sync", "Mutex") || isNamed
 func ResolveRoles(p *Prog) {
 	fieldAlias = map[string]string{}
 	funcAlias = map[*ssa.Function]string{}
+	fullAlias = map[*ssa.Function]string{}
 	// grouping structs: fields of an unexported method-less (or anonymous) struct used by value inside one struct of the
 	// repository count as fields of that struct
 	nestedOwner = map[string]string{}
@@ -490,12 +496,24 @@ func ResolveRoles(p *Prog) {
 		}
 		var found []*ssa.Function
 		for _, f := range p.Methods(pkg, tn) {
-			if f.Object() != nil && !f.Object().Exported() && pred(f) {
+			if f.Signature.Recv() != nil && f.Object() != nil && !f.Object().Exported() && pred(f) {
 				found = append(found, f)
 			}
 		}
 		if len(found) == 1 {
 			funcAlias[found[0]] = canon
+			return
+		}
+		if len(found) == 0 {
+			// the helper as a plain function whose first parameter is the former receiver
+			for _, f := range p.Funcs {
+				if f.Parent() == nil && f.Pkg == pkg && f.Signature.Recv() == nil && f.Object() != nil && !f.Object().Exported() && len(f.Params) > 0 && typeName(f.Params[0].Type()) == tn && pred(f) {
+					found = append(found, f)
+				}
+			}
+			if len(found) == 1 {
+				fullAlias[found[0]] = tn + "." + canon
+			}
 		}
 	}
 	methodRole(F, "CorDef", "doCloseSafe", func(f *ssa.Function) bool {
@@ -557,6 +575,25 @@ func ResolveRoles(p *Prog) {
 		}
 		if len(found) == 1 {
 			funcAlias[found[0]] = canon
+			return
+		}
+		if len(found) == 0 {
+			// the helper as an unexported method of an unexported carrier type (receiver = former first argument)
+			for _, f := range p.Funcs {
+				if f.Parent() != nil || f.Pkg != pkg || f.Signature.Recv() == nil || f.Object() == nil || f.Object().Exported() {
+					continue
+				}
+				rt := f.Signature.Recv().Type()
+				if pt, ok := rt.(*types.Pointer); ok {
+					rt = pt.Elem()
+				}
+				if n, ok := rt.(*types.Named); ok && !n.Obj().Exported() && pred(f) {
+					found = append(found, f)
+				}
+			}
+			if len(found) == 1 {
+				fullAlias[found[0]] = canon
+			}
 		}
 	}
 	funcRole(N, "decodeResponseBody", func(f *ssa.Function) bool {
